@@ -227,7 +227,7 @@ theorem execCmd_good : (c : Cmd) → GoodRun (execCmd g esc call c)
     · exact Good.leaf (by simp) (Ext.of_heap_eq rfl rfl)
     · rename_i sv st1 he
       have e1 := evalIn_ext (fun i => i = top ctx) he
-      exact Good.after e1 (execCases_good cases sv ctx st1 (hown.ext e1))
+      exact Good.after e1 (execCases_good cases none (fun _ h => by cases h) sv ctx st1 (hown.ext e1))
   | .call _ name allData data params => by
     intro ctx st hown
     rw [execCmd]
@@ -310,9 +310,14 @@ theorem execConds_good : (cs : CondList) → GoodRun (execConds g esc call cs)
       split
       · exact Good.after e1 (walkBlockOf_good (execBody_good body) ctx st1 (hown.ext e1))
       · exact Good.after e1 (execConds_good rest ctx st1 (hown.ext e1))
-theorem execCases_good : (cs : CaseList) → (sv : Value) → GoodRun (execCases g esc call cs sv)
-  | .nil, _ => by intro ctx st _; rw [execCases]; exact Good.leaf (by simp) (Ext.of_heap_eq rfl rfl)
-  | .cons _ values body rest, sv => by
+theorem execCases_good : (cs : CaseList) → (dflt : Option Run) → (∀ d, dflt = some d → GoodRun d) → (sv : Value) →
+    GoodRun (execCases g esc call cs dflt sv)
+  | .nil, dflt, hd, _ => by
+    intro ctx st hown; rw [execCases]
+    cases dflt with
+    | none => exact Good.leaf (by simp [runDefault]) (Ext.of_heap_eq rfl rfl)
+    | some d => exact hd d rfl ctx st hown
+  | .cons _ values body rest, dflt, hd, sv => by
     intro ctx st hown
     rw [execCases]
     split
@@ -322,9 +327,8 @@ theorem execCases_good : (cs : CaseList) → (sv : Value) → GoodRun (execCases
       exact Good.after e1 (walkBlockOf_good (execBody_good body) ctx st1 (hown.ext e1))
     · rename_i st1 hm
       have e1 := matchCase_ext (fun i => i = top ctx) _ _ _ _ hm
-      split
-      · exact Good.after e1 (walkBlockOf_good (execBody_good body) ctx st1 (hown.ext e1))
-      · exact Good.after e1 (execCases_good rest sv ctx st1 (hown.ext e1))
+      exact Good.after e1 (execCases_good rest _
+        (pickDefault_all (P := GoodRun) (fun ctx st h => walkBlockOf_good (execBody_good body) ctx st h) hd) sv ctx st1 (hown.ext e1))
 theorem execParams_good : (ps : ParamList) → (cd ctx : Scope) → (st : St) → Own cd st →
     Good (fun i => i = top cd) ctx st (execParams g esc call ps cd ctx st)
   | .nil, _, _, _, _ => by rw [execParams]; exact Good.leaf (by simp) (Ext.of_heap_eq rfl rfl)
